@@ -9,7 +9,7 @@
       decoder, width 0 needs no decoder - and therefore (generic_leaf_correct / fast_leaf_correct) every page that can
       arrive at a leaf decodes to the spec values and the decoder writes at most the bytes the caller allocated.
    3. the DELTA_BINARY_PACKED caller allocates items of the size it tells the decoder.                          *)
-From Coq Require Import NArith Arith List Bool Lia.
+From Coq Require Import NArith ZArith Arith List Bool Lia.
 From Pq Require Import Base.Bytes Base.Err Base.ListX Codec.Varint Codec.Hybrid Codec.Plain Impl.CBitpack Impl.CHybrid
   Impl.PyPack Impl.Dispatch Proofs.HybridProofs Proofs.CBitpackProofs Proofs.CHybridProofs Proofs.CPlainProofs
   Proofs.DispatchProofs Proofs.ListXProofs Proofs.CodecProofs Proofs.CBoolProofs Codec.Bitpack.
@@ -157,6 +157,32 @@ Proof.
   end; cbn [negb andb orb]; split; intros Hx; try discriminate; try (destruct Hx); try split; try lia; try reflexivity.
 Qed.
 Print Assumptions one_run_check_spec.
+
+(* core._index_dtype picks the view from (width, dictionary size): every index that addresses the dictionary (v < len(dic)) comes
+   back unchanged - signed view when the dictionary fits the signed range (fastparquet's own pandas codes), unsigned beyond; without a
+   dictionary at hand the view is signed and holds every non-negative code of that width's signed type *)
+Theorem index_view_holds_every_index : forall k n v,
+  (k = 1 \/ k = 2 \/ k = 4)%nat -> v < n -> n <= 2 ^ (8 * N.of_nat k) ->
+  view_value (index_view_signed (8 * N.of_nat k) (Some n)) k v = Z.of_N v.
+Proof.
+  intros k n v Hk Hv Hn. unfold view_value, index_view_signed.
+  rewrite ?N.shiftl_mul_pow2, ?N.mul_1_l. cbn [orb].
+  repeat match goal with
+  | |- context [?a <=? ?b] => destruct (N.leb_spec a b)
+  | |- context [?a <? ?b] => destruct (N.ltb_spec a b)
+  end; cbn [negb andb orb]; try reflexivity;
+  apply signed_view_exact; try lia.
+Qed.
+Print Assumptions index_view_holds_every_index.
+
+Theorem index_view_without_dictionary : forall k v, (1 <= k)%nat -> v < 2 ^ (8 * N.of_nat k - 1) ->
+  view_value (index_view_signed (8 * N.of_nat k) None) k v = Z.of_N v.
+Proof.
+  intros k v Hk Hv. unfold view_value, index_view_signed. cbn [orb].
+  apply signed_view_exact; [exact Hk | | exact Hv].
+  eapply N.lt_trans; [exact Hv|]. apply N.pow_lt_mono_r; lia.
+Qed.
+Print Assumptions index_view_without_dictionary.
 
 (* ---- 3. DELTA_BINARY_PACKED: the allocation's item size is the one the decoder is told ------------------------ *)
 Theorem v1_delta_alloc_consistent : forall t,
